@@ -532,20 +532,25 @@ impl<'a> QueryPairIter<'a> {
     }
     fn ensure_pos(&mut self) {
         if self.pos.is_none() {
+            // Not found: an empty window inside the vector (`pairs.len()..`).
             self.pos = Some(self.back_pos.map_or_else(
-                || self.query.find_first(self.name).unwrap_or(usize::MAX),
+                || {
+                    self.query
+                        .find_first(self.name)
+                        .unwrap_or(self.query.pairs.len())
+                },
                 |last| self.query.iterate_to_first(self.name, last),
             ));
         }
     }
     fn ensure_back_pos(&mut self) {
         if self.back_pos.is_none() {
-            self.pos = Some(self.pos.map_or_else(
+            // `back_pos` is the exclusive end of the values of `name`. Not found: `..0`.
+            self.back_pos = Some(self.pos.map_or_else(
                 || {
                     self.query
                         .index_of(self.name)
-                        .map(|index| self.query.iterate_to_last(self.name, index))
-                        .unwrap_or(usize::MAX)
+                        .map_or(0, |index| self.query.iterate_to_last(self.name, index))
                 },
                 |first| self.query.iterate_to_last(self.name, first),
             ));
@@ -572,20 +577,20 @@ impl<'a> Iterator for QueryPairIter<'a> {
 impl DoubleEndedIterator for QueryPairIter<'_> {
     fn next_back(&mut self) -> Option<Self::Item> {
         self.ensure_back_pos();
-        if self.pos == Some(self.back_pos.unwrap()) {
+        let back = self.back_pos.unwrap();
+        if self.pos == Some(back) {
             return None;
         }
-        self.query
-            .pairs
-            .get(self.back_pos.unwrap())
-            .and_then(|current| {
-                if current.name() == self.name {
-                    *self.back_pos.as_mut().unwrap() -= 1;
-                    Some(current)
-                } else {
-                    None
-                }
-            })
+        // the last value not yet yielded is the one before the exclusive end
+        let last = back.checked_sub(1)?;
+        self.query.pairs.get(last).and_then(|current| {
+            if current.name() == self.name {
+                self.back_pos = Some(last);
+                Some(current)
+            } else {
+                None
+            }
+        })
     }
 }
 
@@ -1086,6 +1091,14 @@ Some data!";
                 value: Cow::Borrowed("500$"),
             })
         );
+
+        assert_eq!(query.get_last("from").unwrap().value(), "alice");
+        assert_eq!(query.get_last("missing"), None);
+        let mut to = query.get_all("to");
+        assert_eq!(to.next_back().unwrap().value(), "icelk");
+        assert_eq!(to.next().unwrap().value(), "bob");
+        assert_eq!(to.next(), None);
+        assert_eq!(to.next_back(), None);
 
         assert_eq!(query.get("to"), None);
         assert_eq!(
